@@ -5,6 +5,36 @@ import json, subprocess
 HOOK_COMMITS = ["e830588", "a6f2056", "d667224"]
 
 CHECKS = {
+ "C04": dict(
+  technique="runtime oracle: reference JA4 computed from the generating ClientHello model (independent SHA-256) + metamorphic permutation/GREASE checks, through four entry points; deviation models for two known findings",
+  text="Exploration: ~1.4e6 (quick) / ~1e8 (thorough) judged hellos: exhaustive grids (legacy versions x ordered supported_versions lists, cipher/extension counts around 99, all two-byte alphanumeric ALPN names, session-id/compression/record-version grid), all n! orders of ciphers and extensions for n<=5/6 plus random orders for long lists, every subset of a GREASE sample at every position of every list; JA4, JA4_r, JA4_o, JA4_ro, a/b/c parts and the separately reported fields are compared with the reference and across parse function, reader, packet analyzer and unified analyzer. Held = only the two listed known-finding deviations observed.",
+  note="Reference in tlsgen.rs (checked against the FoxIO README example); version and ALPN characters are masked where the published text is ambiguous (see evidence assumptions).",
+  design="6 C04"),
+ "C05": dict(
+  technique="runtime oracle: metamorphic body-independence check + RFC 7230/7231 reference model (h1ref.rs) on generated heads, parser level and packet path",
+  text="Exploration: ~1.7e6 (quick) / ~8e7 (thorough) judged items: every generated head x ~25 body families (text with blank lines, header-like lines, binary, invalid and truncated UTF-8, 64 KiB) must parse to the canonical result of the head alone, directly and through scripted connections under five segmentations; start line, headers, cookies, referer, first-wins fields, language and the p0f signature are compared with the reference; methods x versions, status codes, every listed header name x casings x whitespace forms and all Accept-Language lists up to length 3 are enumerated completely. Held = no difference.",
+  note="Header-name lists of the database crate are inputs to the reference; ambiguous sub-domains (LF-only heads, repeated Cookie, odd q-values, case variants' optional marks) are unjudged.",
+  design="6 C05"),
+ "C06": dict(
+  technique="runtime oracle: print/parse round-trip over the enumerated vocabulary + independent line-oriented reader of p0f text (p0fref.rs) + fault injection; deviation models for four known findings",
+  text="Exploration: ~9e6 (quick) / ~4.4e8 (thorough) judged items: every TTL/window/option/quirk form incl. all 65536 Distance pairs and layouts of length 0..40 round-trips value->text->value and line->value->line, all 298 bundled sig lines re-print identically, the bundled and 1e5 (quick) generated database texts load to exactly the content the reference reader sees (sections, labels, order, MTU groups, classes, ua_os), and ~130 single-fault texts must be rejected. Held = only the four listed known-finding deviations observed.",
+  note="Label Display round-trip and trailing junk after classes=/ua_os= are outside the judged domain.",
+  design="6 C06"),
+ "C08": dict(
+  technique="runtime history monitor: per-segment return values of the incremental reader and of the packet-level TLS analyzer checked against the exactly-once-on-the-completing-segment rule and the one-segment result",
+  text="Exploration: ~1.6e6 (quick) / ~1.9e8 (thorough) judged histories: every 2-partition of hellos from 60 B to 16 KiB, every 3-partition of small hellos, byte-by-byte and random k-partitions, near-limit records, bytes after the record in the same or later segments, and 17 kinds of non-ClientHello records, through TlsClientHelloReader::add_bytes and HuginnNetTls packets (IPv4/IPv6, fresh analyzer every 256 episodes). Held = every history had exactly one result on the completing segment equal to the single-segment one, and none otherwise.",
+  note="A later segment that starts a valid handshake record (second ClientHello) is outside the judged domain; worker-pool path is covered by C10.",
+  design="6 C08"),
+ "C16": dict(
+  technique="runtime oracle: generator-as-reference (full HPACK encoder + HTTP/2 framer, h2gen.rs) vs the decoded request/response; deviation models for three known findings",
+  text="Exploration: ~4.4e5 (quick) / ~9e6 (thorough) encoded header lists: pseudo-header orders, 0..60 fields, cookie crumbs, every representation (indexed, three literal forms, name references, Huffman per string, dynamic references, size updates, non-minimal integers) x framings (plain, PADDED, PRIORITY, CONTINUATION at every byte for short blocks, unfinished) x control frames before and other frames after; method/path/authority/scheme/status, ordered headers, cookies, referer, user agent, language and signature parts must equal the encoded list. Held = only the three listed known-finding deviations observed.",
+  note="Encoder self-checked against RFC 7541 Appendix C; optional-mark/value-elision treatment of lower-case names is unjudged.",
+  design="6 C16"),
+ "C17": dict(
+  technique="runtime oracle: independent Akamai S|WU|P|PS reference over generated frame sequences + history check of the incremental extractor over all chunkings; deviation models for three known findings",
+  text="Exploration: ~2e6 (quick) / ~7e7 (thorough) judged fingerprints: SETTINGS with known/unknown/duplicate ids, reserved bits, WINDOW_UPDATE variants, PRIORITY frames with exclusive bit and all weights, HEADERS with every pseudo-header order and flag combination, with/without preface, one-shot from bytes and from frames, and incrementally under one chunk, every 2-cut, byte-by-byte, frame-by-frame and random k-cuts (Some exactly once on the chunk completing the first SETTINGS, equal to the one-shot fingerprint so far). Held = only the three listed known-finding deviations observed.",
+  note="Reference checked against the published Chrome/Firefox strings; empty or malformed first SETTINGS run crash-only.",
+  design="6 C17"),
  "C02": dict(
   technique="runtime differential monitor: find_best_match vs an exhaustive in-order scan using the library's own distance, on the bundled and on generated databases (loaded through the real parser)",
   text="Exploration: the bundled database plus ~300 (quick) / 36k (thorough) generated p0f databases with wildcards, duplicates and equal-distance competitors; every signature is instantiated over all IP-version / payload-class / HTTP-version fillings (incl. HTTP/2 and HTTP/3), perturbed in one field, and mixed with random observations (~4.3e6 lookups quick). The returned label and signature must be pointer-identical to the first minimum of a full scan and the quality bit-identical; None exactly when nothing accepts. Held = no lookup differed.",
